@@ -266,7 +266,12 @@ pub(crate) fn apply_rules_on_link(
                         BTreeSet::new()
                     }
                 }
-                ArtifactRule::Disallow(_) => {
+                ArtifactRule::Disallow(pattern) => {
+                    // a pattern that cannot be interpreted must not
+                    // silently disallow nothing
+                    for path in queue.iter() {
+                        path.matches(pattern.value())?;
+                    }
                     if !filtered.is_empty() {
                         return Err(Error::ArtifactRuleError(format!(
                             r#"artifact verification failed for {:?} in DISALLOW, because {:?} is disallowed by rule {:?} in {}"#,
